@@ -288,7 +288,8 @@ func (v *victim) canaryCheck(what string) *evid.Fail {
 			if f := crashed(); f != nil {
 				return f
 			}
-			return evid.Failf("canary-cannot-connect", "a new client cannot connect after %s: %v", what, err)
+			ssOut, _ := exec.Command("ss", "-ltn", "sport", "=", ":"+v.addr[strings.LastIndex(v.addr, ":")+1:]).CombinedOutput()
+			return evid.Failf("canary-cannot-connect", "a new client cannot connect after %s: %v\nlistener (ss -ltn): %s\n%s", what, err, strings.TrimSpace(string(ssOut)), v.goroutines())
 		} else {
 			_, ferr := fc.Fence(ver, posWait)
 			fc.Close()
